@@ -40,7 +40,16 @@ fn scratch() -> PathBuf {
 }
 /// How this run spells the file names it hands to the code under test (directory form is chosen in run_one).
 static NAME_STYLE: std::sync::atomic::AtomicU64 = std::sync::atomic::AtomicU64::new(0);
-const NAME_STYLES: [&str; 9] = ["plain", "upper-ext", "no-ext", "non-ascii+space", "long-name", "hidden", "other-ext", "many-dots", "symlink"];
+const NAME_STYLES: [&str; 12] = ["plain", "upper-ext", "no-ext", "non-ascii+space", "long-name", "hidden", "other-ext", "many-dots", "symlink", "non-utf8", "trailing-space", "leading-space"];
+/// For interfaces that take paths as `String` (markup pipeline options, command-line arguments built here):
+/// the non-UTF-8 style cannot be expressed there and falls back to the plain name.
+fn nm_utf8(dir: &Path, name: &str) -> PathBuf {
+    if NAME_STYLE.load(std::sync::atomic::Ordering::Relaxed) == 9 {
+        dir.join(name)
+    } else {
+        nm(dir, name)
+    }
+}
 fn nm(dir: &Path, name: &str) -> PathBuf {
     let (stem, ext) = match name.rfind('.') {
         Some(i) => (&name[..i], &name[i + 1..]),
@@ -63,6 +72,14 @@ fn nm(dir: &Path, name: &str) -> PathBuf {
             }
             return link;
         }
+        9 => {
+            use std::os::unix::ffi::OsStringExt;
+            let mut b = b"caf\xE9-m\xFCller-".to_vec();
+            b.extend_from_slice(name.as_bytes());
+            return dir.join(std::ffi::OsString::from_vec(b));
+        }
+        10 => format!("{} ", name),
+        11 => format!(" {}", name),
         _ => name.to_string(),
     };
     dir.join(n)
@@ -331,7 +348,7 @@ fn one_ser(t: &mut Tape, dir: &Path, probes: &mut std::collections::BTreeMap<Str
     // the two-tool pipeline on real files
     let mut bytes0 = Vec::new();
     if lib.write(&mut bytes0).is_ok() {
-        let (a, m, b) = (nm(dir, "a.gds"), nm(dir, "a.markup"), nm(dir, "b.gds"));
+        let (a, m, b) = (nm_utf8(dir, "a.gds"), nm_utf8(dir, "a.markup"), nm_utf8(dir, "b.gds"));
         std::fs::write(&a, &bytes0).unwrap();
         let _ = prestate(t, &m, text.len());
         let _ = prestate(t, &b, bytes0.len());
@@ -371,7 +388,7 @@ fn one_cli(id: &str, t: &mut Tape, dir: &Path, probes: &mut std::collections::BT
             Err(format!("{} {:?} exited with {} ({})", exe, args, o.status, String::from_utf8_lossy(&o.stderr).chars().take(200).collect::<String>()))
         }
     };
-    let p = |n: &str| nm(dir, n).to_string_lossy().to_string();
+    let p = |n: &str| nm_utf8(dir, n).to_string_lossy().to_string();
     match id {
         "C05" => {
             let (text, _) = gen_lef::gen_lef_text(t, false);
